@@ -26,7 +26,7 @@
    counts of a request (`req_pairs`) are, for explicit sets, the counts over
    G.edges(); theorem C06_req_pairs_are_ordered_pair_counts (handshake lemma) shows
    they are the order-free numbers of ordered adjacent S-S, S-I, I-I pairs. *)
-From EoNV Require Import Prelude Graph Aux Vec IC Wrappers VecP ICP ICHand ICPair ICEd Rhs ICConserve.
+From EoNV Require Import Prelude Graph Aux Vec IC Wrappers VecP ICP ICHand ICPair ICEd ICEbcm Rhs ICConserve.
 
 (* ---------- non-vacuity of the hypotheses ---------- *)
 Example C06_wf_example :
@@ -203,6 +203,21 @@ Theorem row0_SIR_effective_degree_from_graph_sets :
 Proof. exact row0_SIR_ed_sets. Qed.
 Print Assumptions row0_SIR_effective_degree_from_graph_sets.
 
+(* EBCM_from_graph.  _partial: acceptance is not proved (the wrapper raises ZeroDivisionError when no susceptible node
+   has an edge: phiS0 = SS/SX with SX = 0, outside the generator's domain); FULL statement: exists out, ... = Ok out /\ the same. *)
+Theorem row0_EBCM_from_graph_partial :
+  forall g rq full sv out, wf_ugraph g = true -> wf_req g true rq = true -> solver_ok sv ->
+  EBCM_from_graph g rq full sv = Ok out ->
+  exists S I R, lookup nS out = Some (Sc S) /\ lookup nI out = Some (Sc I) /\ lookup nR out = Some (Sc R) /\
+    S 0%nat == reqS_n g rq /\ I 0%nat == reqI_n g rq /\ R 0%nat == reqR_n g rq /\
+    (full = true -> exists th, lookup nTheta out = Some (Sc th) /\ th 0%nat == 1).
+Proof. exact row0_EBCM_fg. Qed.
+Print Assumptions row0_EBCM_from_graph_partial.
+Example C06_EBCM_returns :
+  exists out, EBCM_from_graph path3 (mkReq (Some [0%N]) (Some [2%N]) None) true const_solver = Ok out.
+Proof. eexists. vm_compute. reflexivity. Qed.
+Print Assumptions C06_EBCM_returns.
+
 (* heterogeneous pairwise, SIS, return_full_data=True: still refused - ValueError from IkIl = NkNl - SkSl - SkIl - SkIl.T *)
 Theorem accepts_SIS_heterogeneous_pairwise_from_graph_full_refuted :
   exists g rq, wf_ugraph g = true /\ wf_req g false rq = true /\
@@ -285,3 +300,43 @@ Theorem conserve_SIS_heterogeneous_meanfield :
   forall X t k tau gamma, length X = (2 * k)%nat -> vsum (dSIS_heterogeneous_meanfield X t k tau gamma) == 0.
 Proof. exact conserve_dSIS_heterogeneous_meanfield. Qed.
 Print Assumptions conserve_SIS_heterogeneous_meanfield.
+
+(* more identities over the generated right-hand sides *)
+Theorem conserve_edges_SIS_super_compact_pairwise :
+  forall I SS SI II t tau gamma N k1 k2 k3,
+    let d := dSIS_super_compact_pairwise [I; SS; SI; II] t tau gamma N k1 k2 k3 in
+    vnth 1 d + 2 * vnth 2 d + vnth 3 d == 0.
+Proof. exact conserve_edges_dSIS_super_compact_pairwise. Qed.
+Print Assumptions conserve_edges_SIS_super_compact_pairwise.
+(* sign_: dR = gamma * I with I the returned N - S - R; dS <= 0 on the feasible region (the lift to monotone curves is cited) *)
+Theorem sign_dR_EBCM :
+  forall theta R t N tau gamma (ps psP : Q -> Q) phiS0 phiR0,
+    vnth 1 (dEBCM [theta; R] t N tau gamma ps psP phiS0 phiR0) == gamma * (N - N * ps theta - R).
+Proof. exact dR_EBCM. Qed.
+Print Assumptions sign_dR_EBCM.
+Theorem sign_dR_SIR_super_compact_pairwise :
+  forall theta SS SI R t tau gamma (ps psP psDP : Q -> Q) N,
+    vnth 3 (dSIR_super_compact_pairwise [theta; SS; SI; R] t tau gamma ps psP psDP N) == gamma * (N - N * ps theta - R).
+Proof. exact dR_SIR_super_compact_pairwise. Qed.
+Print Assumptions sign_dR_SIR_super_compact_pairwise.
+Theorem sign_dR_SIR_compact_pairwise :
+  forall Sk SS SI R t N tau gamma,
+    vnth 2 (take_last 3 (dSIR_compact_pairwise (Sk ++ [SS; SI; R]) t N tau gamma)) == gamma * (N - vsum Sk - R).
+Proof. exact dR_SIR_compact_pairwise. Qed.
+Print Assumptions sign_dR_SIR_compact_pairwise.
+Theorem sign_dR_SIR_compact_effective_degree :
+  forall Sk R SI t N tau gamma,
+    vnth 0 (take_last 2 (dSIR_compact_effective_degree (Sk ++ [R; SI]) t N tau gamma)) == gamma * (N - R - vsum Sk).
+Proof. exact dR_SIR_compact_effective_degree. Qed.
+Print Assumptions sign_dR_SIR_compact_effective_degree.
+Theorem sign_dRk_SIR_heterogeneous_meanfield :
+  forall theta Rk t S0 Nk tau gamma,
+    slice_from 1 (dSIR_heterogeneous_meanfield (theta :: Rk) t S0 Nk tau gamma)
+    = smul gamma (vsub (vsub Nk (vmul S0 (spow_arange theta (length Rk)))) Rk).
+Proof. exact dRk_SIR_heterogeneous_meanfield. Qed.
+Print Assumptions sign_dRk_SIR_heterogeneous_meanfield.
+Theorem sign_dS_SIR_homogeneous_meanfield_nonpositive :
+  forall S I t c tau gamma, 0 <= tau -> 0 <= c -> 0 <= S -> 0 <= I ->
+    vnth 0 (dSIR_homogeneous_meanfield [S; I] t c tau gamma) <= 0.
+Proof. exact sign_dS_SIR_homogeneous_meanfield. Qed.
+Print Assumptions sign_dS_SIR_homogeneous_meanfield_nonpositive.
